@@ -754,7 +754,8 @@ Qed.
    that machine whose own budget ran out *)
 Definition InvD (s : state) : Prop :=
   forall m ip, ms_table (st_machs s m) ip = Some SFailed ->
-    exists rid r t, st_res s rid = Some r /\ r_mach r = m /\ r_dest r = ip /                    r_phase r = PDone SFailed t CBudget.
+    exists rid r t, st_res s rid = Some r /\ r_mach r = m /\ r_dest r = ip /\
+      r_phase r = PDone SFailed t CBudget.
 
 Lemma InvD_init cfg : InvD (init cfg).
 Proof. intros m ip H. cbn in H. discriminate. Qed.
@@ -778,9 +779,10 @@ Qed.
 
 Lemma InvD_step cfg s x s' : InvD s -> step cfg s x = Ok s' -> InvD s'.
 Proof.
-  intros HD Hstep. pose proof (done_stable _ _ _ _ Hstep) as Hst.
+  intros HD Hstep. pose proof (fun rid r st t c => done_stable cfg s x s' rid r st t c Hstep) as Hst.
   assert (Hkeep : forall m ip, ms_table (st_machs s m) ip = Some SFailed ->
-            exists rid r t, st_res s' rid = Some r /\ r_mach r = m /\ r_dest r = ip /                            r_phase r = PDone SFailed t CBudget).
+            exists rid r t, st_res s' rid = Some r /\ r_mach r = m /\ r_dest r = ip /\
+      r_phase r = PDone SFailed t CBudget).
   { intros m ip H. destruct (HD m ip H) as (rid & r & t & Hr & Hm & Hd & Hp).
     exists rid, r, t. repeat split; auto. eapply Hst; eauto. }
   destruct x as [t0 l]. apply step_shape_ok in Hstep. destruct Hstep as [_ Hsh].
@@ -855,3 +857,475 @@ Qed.
 
 Lemma reachable_run cfg s tr s' : reachable cfg s -> run cfg s tr = Ok s' -> reachable cfg s'.
 Proof. intros [tr0 H] Hs. exists (tr0 ++ tr). eapply run_app; eauto. Qed.
+
+(* ------------------------------------------------------------------ theorems: truthfulness *)
+
+(* [mac] is the MAC of THE machine that may claim [ip], and that machine answers for it now *)
+Definition owner_mac (cfg : config) (s : state) (ip mac : N) : Prop :=
+  exists o, (o < n_machs cfg)%nat /\ mac = mac_of cfg o /\ listens s o ip /\ In ip (claims_of cfg o) /\
+            forall o', (o' < n_machs cfg)%nat -> In ip (claims_of cfg o') -> o' = o.
+
+Lemma truthful_owner cfg s ip mac :
+  wf_cfg cfg -> InvA cfg s -> truthful cfg s ip mac -> owner_mac cfg s ip mac.
+Proof.
+  intros Hwf HA (o & Ho & He & Hl). destruct (ia_local _ _ HA _ _ Hl) as [_ Hc].
+  exists o. repeat split; auto. intros o' Ho' Hc'. eapply owner_unique; eauto.
+Qed.
+
+Lemma table_truthful cfg s m ip mac :
+  wf_cfg cfg -> reachable cfg s ->
+  ms_table (st_machs s m) ip = Some (SOk mac) -> owner_mac cfg s ip mac.
+Proof.
+  intros Hwf Hr Ht. pose proof (Inv_reachable _ _ Hwf Hr) as [HA _ _ _].
+  apply truthful_owner; auto. eapply ia_table; eauto.
+Qed.
+
+Lemma never_wrong cfg s rid r mac t c :
+  wf_cfg cfg -> reachable cfg s ->
+  st_res s rid = Some r -> r_phase r = PDone (SOk mac) t c ->
+  r_dest r = target (r_sub r) (r_pair r) /\ owner_mac cfg s (r_dest r) mac.
+Proof.
+  intros Hwf Hre Hr Hp. pose proof (Inv_reachable _ _ Hwf Hre) as [HA _ _ _].
+  destruct (ia_res _ _ HA _ _ Hr) as (_ & Hd & _ & Ht). split; [exact Hd|].
+  apply truthful_owner; auto. eapply Ht; eauto.
+Qed.
+
+(* what LStart records: the pair, and the subnet entry of the local address after listen() *)
+Lemma start_records cfg s t m rid p slot s' :
+  step cfg s (t, LStart m rid p slot) = Ok s' ->
+  exists r, st_res s' rid = Some r /\ r_mach r = m /\ r_pair r = p /\ r_born r = t /\
+    r_sub r = match ms_local (listen (st_machs s m) (p_local p)) (p_local p) with
+              | Some inner => inner | None => None end /\
+    r_dest r = target (r_sub r) p.
+Proof.
+  intros H. apply step_shape_ok in H. destruct H as [_ (_ & _ & _ & Hsh)].
+  unfold start_shape in Hsh. cbv zeta in Hsh. destruct Hsh as (ph & net' & -> & _).
+  cbn [st_res]. rewrite upd_same. eexists. split; [reflexivity|]. cbn. auto.
+Qed.
+
+(* ------------------------------------------------------------------ theorems: one exchange suffices *)
+
+Lemma with_mac_self cfg m : wf_cfg cfg -> (m < n_machs cfg)%nat -> with_mac cfg (mac_of cfg m) = [m].
+Proof.
+  intros Hwf Hm. unfold with_mac, all_machs.
+  assert (H : forall l, NoDup l -> (forall i, In i l -> (i < n_machs cfg)%nat) ->
+            filter (fun i => (mac_of cfg i =? mac_of cfg m)%N) l = if in_dec Nat.eq_dec m l then [m] else []).
+  { induction l as [|a l IH]; intros Hnd Hl; [reflexivity|].
+    inversion Hnd as [|? ? Hna Hnd']; subst. cbn [filter].
+    assert (Hl' : forall i, In i l -> (i < n_machs cfg)%nat) by (intros; apply Hl; right; assumption).
+    rewrite (IH Hnd' Hl').
+    destruct (N.eqb_spec (mac_of cfg a) (mac_of cfg m)) as [He|He].
+    - apply (mac_inj cfg Hwf) in He; [|apply Hl; left; reflexivity|exact Hm]. subst a.
+      destruct (in_dec Nat.eq_dec m l); [contradiction|].
+      destruct (in_dec Nat.eq_dec m (m :: l)) as [_|Hn]; [reflexivity|]. exfalso. apply Hn. left. reflexivity.
+    - destruct (in_dec Nat.eq_dec m l) as [Hi|Hi]; destruct (in_dec Nat.eq_dec m (a :: l)) as [Hj|Hj]; auto.
+      + exfalso. apply Hj. right. exact Hi.
+      + destruct Hj as [->|Hj]; [congruence | contradiction]. }
+  rewrite H; [|apply seq_NoDup|intros i Hi; apply in_seq in Hi; lia].
+  destruct (in_dec Nat.eq_dec m (seq 0 (n_machs cfg))) as [_|Hn]; [reflexivity|].
+  exfalso. apply Hn. apply in_seq. lia.
+Qed.
+
+Lemma remove1_other p m l l' x : remove1 p m l = Some l' -> In x l -> x = (p, m) \/ In x l'.
+Proof.
+  revert l'. induction l as [|[q k] l IH]; intros l' H Hx; [contradiction|].
+  cbn [remove1] in H. destruct (packet_eqb p q && Nat.eqb m k) eqn:He.
+  - inversion H; subst. destruct Hx as [<-|Hx]; [|right; exact Hx].
+    apply andb_true_iff in He. destruct He as [H1 H2]. apply packet_eqb_eq in H1. apply Nat.eqb_eq in H2.
+    subst. left. reflexivity.
+  - destruct (remove1 p m l) as [r|]; [|discriminate]. inversion H; subst.
+    destruct Hx as [<-|Hx]; [right; left; reflexivity|].
+    destruct (IH r eq_refl Hx) as [E|E]; [left; exact E | right; right; exact E].
+Qed.
+
+(* the request reaches a machine that answers for the target address: its reply (carrying that
+   machine's MAC and the target address) is in flight to the requester *)
+Lemma exchange_request cfg s t req o m s' :
+  wf_cfg cfg -> (ARP_SIZE <= cfg_mtu cfg)%N ->
+  step cfg s (t, LDeliver req o) = Ok s' ->
+  pk_oper req = Request -> listens s o (pk_tip req) ->
+  (m < n_machs cfg)%nat -> pk_smac req = mac_of cfg m ->
+  In (reply_of cfg o req, m) (st_net s') /\
+  pk_oper (reply_of cfg o req) = Reply /\ pk_sip (reply_of cfg o req) = pk_tip req /\
+  pk_smac (reply_of cfg o req) = mac_of cfg o.
+Proof.
+  intros Hwf Hmtu Hstep Hop Hl Hm Hmac. apply step_shape_ok in Hstep. destruct Hstep as [_ Hsh].
+  cbn [step_shape] in Hsh. destruct Hsh as (net' & _ & ->). cbn [st_net].
+  split; [|cbn; auto]. apply in_or_app. right.
+  unfold demux. cbv zeta. rewrite Hop. cbn [set_mac ms_local].
+  unfold listens in Hl. destruct (ms_local (st_machs s o) (pk_tip req)); [|contradiction].
+  unfold send_pci. destruct (N.ltb_spec (cfg_mtu cfg) ARP_SIZE) as [Hlt|_]; [lia|].
+  cbn [snd]. unfold route. rewrite Hmac.
+  pose proof (mac_not_broadcast cfg Hwf m Hm) as Hb. apply N.ltb_lt in Hb.
+  destruct (N.eqb_spec (mac_of cfg m) BROADCAST_MAC) as [E|_]; [lia|].
+  rewrite with_mac_self by assumption. left. reflexivity.
+Qed.
+
+(* any ARP packet that reaches a machine leaves sender_ip -> sender_mac in its table *)
+Lemma exchange_reply cfg s t p m s' :
+  step cfg s (t, LDeliver p m) = Ok s' ->
+  ms_table (st_machs s' m) (pk_sip p) = Some (SOk (pk_smac p)).
+Proof.
+  intros Hstep. apply step_shape_ok in Hstep. destruct Hstep as [_ Hsh].
+  cbn [step_shape] in Hsh. destruct Hsh as (net' & _ & ->). cbn [st_machs].
+  rewrite updn_same, demux_state. cbn [set_mac ms_table]. apply upd_same.
+Qed.
+
+(* a resolved entry is never lost or changed *)
+Lemma ok_stable_step cfg s x s' m ip mac :
+  wf_cfg cfg -> Inv cfg s -> step cfg s x = Ok s' ->
+  ms_table (st_machs s m) ip = Some (SOk mac) -> ms_table (st_machs s' m) ip = Some (SOk mac).
+Proof.
+  intros Hwf [HA _ _ _] Hstep Ht. destruct x as [t l].
+  apply step_shape_ok in Hstep. destruct Hstep as [_ Hsh].
+  destruct l as [m0 ip0|m0 ip0 sn|m0 rid p slot|rid|p m0|p m0|p m0]; cbn [step_shape] in Hsh.
+  - destruct Hsh as (_ & _ & ->). unfold set_mach. cbn [st_machs].
+    machs_at m m0; [rewrite listen_table|]; exact Ht.
+  - destruct Hsh as (_ & _ & ->). unfold set_mach. cbn [st_machs]. machs_at m m0; exact Ht.
+  - destruct Hsh as (_ & _ & _ & Hsh). unfold start_shape in Hsh. cbv zeta in Hsh.
+    destruct Hsh as (ph & net' & -> & _). cbn [st_machs]. machs_at m m0; [rewrite listen_table|]; exact Ht.
+  - unfold poll_shape in Hsh. destruct Hsh as (r & k & dl & Hr & Hph & Hsh). cbv zeta in Hsh.
+    destruct Hsh as (ph & ms' & net' & -> & Hcases). cbn [st_machs].
+    destruct (Nat.eq_dec m (r_mach r)) as [Hm|Hm]; [|rewrite updn_other by exact Hm; exact Ht].
+    subst m. rewrite updn_same.
+    destruct Hcases as [(st' & _ & _ & -> & _)|[(_ & _ & _ & _ & _ & -> & _)|[(_ & _ & _ & _ & _ & -> & _)|(Hn & _ & _ & _ & -> & _)]]];
+      try exact Ht.
+    cbn [fail_mac ms_table]. unfold upd. destruct (N.eqb_spec ip (r_dest r)) as [->|_]; [congruence|exact Ht].
+  - destruct Hsh as (net' & Hrm & ->). cbn [st_machs].
+    apply remove1_In in Hrm. destruct Hrm as [Hin _]. destruct (ia_net _ _ HA _ _ Hin) as [Htr _].
+    destruct (Nat.eq_dec m m0) as [Hm|Hm]; [|rewrite updn_other by exact Hm; exact Ht].
+    subst m0. rewrite updn_same, demux_state. cbn [set_mac ms_table]. unfold upd.
+    destruct (N.eqb_spec ip (pk_sip p)) as [->|_]; [|exact Ht].
+    f_equal. f_equal. eapply truthful_unique; eauto. eapply ia_table; eauto.
+  - destruct Hsh as (net' & _ & ->). exact Ht.
+  - destruct Hsh as (net' & _ & ->). exact Ht.
+Qed.
+
+(* once the table of machine m holds [SOk mac] for D, a resolver of D on m that has not finished
+   yet (or starts later) can only finish with [SOk mac] *)
+Definition not_failed_yet (s : state) (rid : N) (m : nat) (D mac : N) : Prop :=
+  forall r, st_res s rid = Some r -> r_mach r = m -> r_dest r = D ->
+    (exists k dl, r_phase r = PWait k dl) \/ (exists t c, r_phase r = PDone (SOk mac) t c).
+
+Lemma succeeds_step cfg s x s' rid m D mac :
+  wf_cfg cfg -> Inv cfg s -> step cfg s x = Ok s' ->
+  ms_table (st_machs s m) D = Some (SOk mac) ->
+  not_failed_yet s rid m D mac -> not_failed_yet s' rid m D mac.
+Proof.
+  intros Hwf HI Hstep Ht Hnf. destruct x as [t l].
+  pose proof (step_shape_ok _ _ _ _ _ Hstep) as [_ Hsh].
+  destruct l as [m0 ip0|m0 ip0 sn|m0 rid0 p slot|rid0|p m0|p m0|p m0]; cbn [step_shape] in Hsh.
+  - destruct Hsh as (_ & _ & ->). exact Hnf.
+  - destruct Hsh as (_ & _ & ->). exact Hnf.
+  - destruct Hsh as (_ & _ & _ & Hsh). unfold start_shape in Hsh. cbv zeta in Hsh.
+    destruct Hsh as (ph & net' & -> & Hcases). intros r Hr Hm Hd. cbn [st_res] in Hr.
+    unfold upd in Hr. destruct (N.eqb_spec rid rid0) as [->|Hne]; [|apply Hnf; assumption].
+    inversion Hr; subst r. cbn [r_mach r_dest r_phase] in *. subst m0.
+    rewrite <- Hd in Ht.
+    destruct Hcases as [(st & Htab & -> & _)|[(Htab & _)|(Htab & _)]];
+      rewrite listen_table in Htab; rewrite Htab in Ht; try discriminate.
+    inversion Ht; subst. right. eauto.
+  - unfold poll_shape in Hsh. destruct Hsh as (r0 & k & dl & Hr0 & Hph & Hsh). cbv zeta in Hsh.
+    destruct Hsh as (ph & ms' & net' & -> & Hcases). intros r Hr Hm Hd. cbn [st_res] in Hr.
+    unfold upd in Hr. destruct (N.eqb_spec rid rid0) as [->|Hne]; [|apply Hnf; assumption].
+    inversion Hr; subst r. cbn [r_mach r_dest r_phase] in *. subst m. rewrite <- Hd in Ht.
+    destruct Hcases as [(st & Htab & -> & _)|[(Htab & _)|[(Htab & _)|(Htab & _)]]];
+      rewrite Htab in Ht; try discriminate.
+    inversion Ht; subst. right. eauto.
+  - destruct Hsh as (net' & _ & ->). exact Hnf.
+  - destruct Hsh as (net' & _ & ->). exact Hnf.
+  - destruct Hsh as (net' & _ & ->). exact Hnf.
+Qed.
+
+Lemma succeeds_run cfg tr : forall s s' rid m D mac,
+  wf_cfg cfg -> Inv cfg s -> run cfg s tr = Ok s' ->
+  ms_table (st_machs s m) D = Some (SOk mac) ->
+  not_failed_yet s rid m D mac ->
+  ms_table (st_machs s' m) D = Some (SOk mac) /\ not_failed_yet s' rid m D mac.
+Proof.
+  induction tr as [|x tr IH]; intros s s' rid m D mac Hwf HI Hrun Ht Hnf; cbn [run] in Hrun.
+  - inversion Hrun; subst. auto.
+  - destruct (step cfg s x) as [s1| | |] eqn:Hs; cbn [bind] in Hrun; try discriminate.
+    apply (IH s1 s' rid m D mac Hwf); auto.
+    + eapply Inv_step; eauto.
+    + eapply ok_stable_step; eauto.
+    + eapply succeeds_step; eauto.
+Qed.
+
+(* If an ARP packet of D's owner has been delivered to machine m (table entry SOk), every
+   resolver of D on m that was still waiting at that moment, or starts later, returns that MAC *)
+Lemma succeeds cfg s tr s' rid m D mac r st t c :
+  wf_cfg cfg -> reachable cfg s -> run cfg s tr = Ok s' ->
+  ms_table (st_machs s m) D = Some (SOk mac) ->
+  (st_res s rid = None \/ exists r0 k dl, st_res s rid = Some r0 /\ r_phase r0 = PWait k dl) ->
+  st_res s' rid = Some r -> r_mach r = m -> r_dest r = D -> r_phase r = PDone st t c ->
+  st = SOk mac.
+Proof.
+  intros Hwf Hre Hrun Ht Hstart Hr Hm Hd Hp.
+  pose proof (Inv_reachable _ _ Hwf Hre) as HI.
+  assert (Hnf : not_failed_yet s rid m D mac).
+  { intros r1 Hr1 _ _. destruct Hstart as [Hn|(r0 & k & dl & Hr0 & Hp0)]; [congruence|].
+    rewrite Hr1 in Hr0. inversion Hr0; subst. left. eauto. }
+  destruct (succeeds_run cfg tr s s' rid m D mac Hwf HI Hrun Ht Hnf) as [_ Hnf'].
+  destruct (Hnf' r Hr Hm Hd) as [(k & dl & E)|(t' & c' & E)]; rewrite Hp in E; [discriminate|].
+  inversion E. reflexivity.
+Qed.
+
+(* conversely: a resolver that gives up has never been reached by a packet of the owner *)
+Lemma failure_means_unheard cfg s x s' rid r k dl r' t c :
+  step cfg s x = Ok s' ->
+  st_res s rid = Some r -> r_phase r = PWait k dl ->
+  st_res s' rid = Some r' -> r_phase r' = PDone SFailed t c ->
+  forall mac, ms_table (st_machs s (r_mach r)) (r_dest r) <> Some (SOk mac).
+Proof.
+  intros Hstep Hr Hp Hr' Hp' mac Ht. destruct x as [t0 l].
+  apply step_shape_ok in Hstep. destruct Hstep as [_ Hsh].
+  destruct l as [m0 ip0|m0 ip0 sn|m0 rid0 p slot|rid0|p m0|p m0|p m0]; cbn [step_shape] in Hsh.
+  - destruct Hsh as (_ & _ & ->). cbn in Hr'. congruence.
+  - destruct Hsh as (_ & _ & ->). cbn in Hr'. congruence.
+  - destruct Hsh as (_ & _ & Hfresh & Hsh). unfold start_shape in Hsh. cbv zeta in Hsh.
+    destruct Hsh as (ph & net' & -> & _). cbn [st_res] in Hr'.
+    rewrite upd_other in Hr' by congruence. congruence.
+  - unfold poll_shape in Hsh. destruct Hsh as (r0 & k0 & dl0 & Hr0 & Hph & Hsh). cbv zeta in Hsh.
+    destruct Hsh as (ph & ms' & net' & -> & Hcases). cbn [st_res] in Hr'.
+    unfold upd in Hr'. destruct (N.eqb_spec rid rid0) as [->|Hne]; [|congruence].
+    rewrite Hr in Hr0. inversion Hr0; subst r0. inversion Hr'; subst r'. cbn [r_phase] in Hp'.
+    destruct Hcases as [(st & Htab & -> & _)|[(Htab & _)|[(Htab & _)|(Htab & _)]]]; try congruence.
+  - destruct Hsh as (net' & _ & ->). cbn in Hr'. congruence.
+  - destruct Hsh as (net' & _ & ->). cbn in Hr'. congruence.
+  - destruct Hsh as (net' & _ & ->). cbn in Hr'. congruence.
+Qed.
+
+(* ------------------------------------------------------------------ theorems: bounded failure, no hang *)
+
+(* timing of every resolver of a reachable state *)
+Lemma resolver_timing cfg s rid r :
+  wf_cfg cfg -> reachable cfg s -> st_res s rid = Some r -> res_time (st_now s) r.
+Proof. intros Hwf Hre Hr. pose proof (Inv_reachable _ _ Hwf Hre) as [_ HB _ _]. eapply ib_res; eauto. Qed.
+
+(* nobody may claim D: a resolver of D never returns a MAC *)
+Lemma unclaimed_never_ok cfg s rid r mac t c :
+  wf_cfg cfg -> reachable cfg s ->
+  (forall o, (o < n_machs cfg)%nat -> ~ In (r_dest r) (claims_of cfg o)) ->
+  st_res s rid = Some r -> r_phase r <> PDone (SOk mac) t c.
+Proof.
+  intros Hwf Hre Hno Hr Hp.
+  destruct (never_wrong _ _ _ _ _ _ _ Hwf Hre Hr Hp) as [_ (o & Ho & _ & _ & Hc & _)].
+  exact (Hno o Ho Hc).
+Qed.
+
+(* a failure is either the resolver's own exhausted budget (after exactly RESEND_TRIES delays),
+   a send error, or the cached failure of a sibling whose budget was exhausted *)
+Lemma failure_cause cfg s rid r t c :
+  wf_cfg cfg -> reachable cfg s -> st_res s rid = Some r -> r_phase r = PDone SFailed t c ->
+  (r_born r <= t <= r_born r + BUDGET)%Z /\
+  (c = CBudget -> t = (r_born r + BUDGET)%Z).
+Proof.
+  intros Hwf Hre Hr Hp. pose proof (resolver_timing _ _ _ _ Hwf Hre Hr) as [_ Ht].
+  rewrite Hp in Ht. destruct Ht as (H1 & H2 & H3 & _). split; [lia|]. intros E. apply H3. exact E.
+Qed.
+
+(* the poll of a waiting resolver is a move of the model whenever the clock allows its instant *)
+Definition poll_instant (s : state) (r : resolver) (dl : Z) : Z :=
+  match ms_table (st_machs s (r_mach r)) (r_dest r) with Some _ => st_now s | None => dl end.
+
+Lemma poll_enabled cfg s rid r k dl :
+  st_res s rid = Some r -> r_phase r = PWait k dl ->
+  time_ok s (poll_instant s r dl) = true ->
+  exists s', step cfg s (poll_instant s r dl, LPoll rid) = Ok s'.
+Proof.
+  intros Hr Hp Ht. unfold step. rewrite Ht. cbn [negb]. unfold poll_resolve. rewrite Hr, Hp.
+  unfold poll_instant in *. cbv zeta.
+  destruct (ms_table (st_machs s (r_mach r)) (r_dest r)) as [st|]; [eauto|].
+  rewrite Z.eqb_refl. cbn [negb].
+  destruct (k <? RESEND_TRIES)%N; [|eauto].
+  destruct (send_pci _ _ _); eauto.
+Qed.
+
+(* the waiting resolver that is due first *)
+Fixpoint next_due (s : state) (rids : list N) : option (N * Z) :=
+  match rids with
+  | [] => None
+  | rid :: rest =>
+      let best := next_due s rest in
+      match st_res s rid with
+      | Some r =>
+          match r_phase r with
+          | PWait _ dl =>
+              let t := poll_instant s r dl in
+              match best with
+              | Some (_, tb) => if (t <=? tb)%Z then Some (rid, t) else best
+              | None => Some (rid, t)
+              end
+          | PDone _ _ _ => best
+          end
+      | None => best
+      end
+  end.
+
+Lemma next_due_spec s rids :
+  (forall rid r k dl, In rid rids -> st_res s rid = Some r -> r_phase r = PWait k dl ->
+     exists rid0 t0, next_due s rids = Some (rid0, t0) /\ (t0 <= poll_instant s r dl)%Z) /\
+  (forall rid0 t0, next_due s rids = Some (rid0, t0) ->
+     exists r k dl, In rid0 rids /\ st_res s rid0 = Some r /\ r_phase r = PWait k dl /\
+                    t0 = poll_instant s r dl).
+Proof.
+  induction rids as [|a rest [IH1 IH2]]; cbn [next_due]; cbv zeta.
+  - split; [intros ? ? ? ? []|discriminate].
+  - split.
+    + intros rid r k dl Hin Hr Hp.
+      destruct Hin as [->|Hin].
+      * rewrite Hr, Hp. destruct (next_due s rest) as [[rb tb]|].
+        -- destruct (Z.leb_spec (poll_instant s r dl) tb); do 2 eexists; (split; [reflexivity|lia]).
+        -- do 2 eexists. split; [reflexivity|lia].
+      * destruct (IH1 rid r k dl Hin Hr Hp) as (rid0 & t0 & E & Hle). rewrite E.
+        destruct (st_res s a) as [ra|]; [|eauto].
+        destruct (r_phase ra) as [ka dla|? ? ?]; [|eauto].
+        destruct (Z.leb_spec (poll_instant s ra dla) t0); do 2 eexists; (split; [reflexivity|lia]).
+    + intros rid0 t0 H.
+      assert (Hrest : next_due s rest = Some (rid0, t0) ->
+                exists r k dl, In rid0 (a :: rest) /\ st_res s rid0 = Some r /\ r_phase r = PWait k dl /\
+                               t0 = poll_instant s r dl).
+      { intros E. destruct (IH2 _ _ E) as (r & k & dl & Hin & Hr & Hp & Et).
+        exists r, k, dl. repeat split; auto. right. exact Hin. }
+      destruct (st_res s a) as [ra|] eqn:Hra; [|auto].
+      destruct (r_phase ra) as [ka dla|? ? ?] eqn:Hpa; [|auto].
+      destruct (next_due s rest) as [[rb tb]|].
+      * destruct (Z.leb_spec (poll_instant s ra dla) tb); [|auto].
+        inversion H; subst. exists ra, ka, dla. repeat split; auto. left. reflexivity.
+      * inversion H; subst. exists ra, ka, dla. repeat split; auto. left. reflexivity.
+Qed.
+
+(* no hang: while some resolver is waiting, some resolver's poll is a move of the model, at an
+   instant within that resolver's budget *)
+Lemma never_hangs cfg s rid r k dl :
+  wf_cfg cfg -> reachable cfg s -> st_res s rid = Some r -> r_phase r = PWait k dl ->
+  exists rid0 r0 t0 s',
+    step cfg s (t0, LPoll rid0) = Ok s' /\ st_res s rid0 = Some r0 /\
+    (st_now s <= t0 <= r_born r0 + BUDGET)%Z /\ (t0 <= dl)%Z.
+Proof.
+  intros Hwf Hre Hr Hp. pose proof (Inv_reachable _ _ Hwf Hre) as [_ HB _ _].
+  destruct (next_due_spec s (st_rids s)) as [H1 H2].
+  destruct (H1 rid r k dl (ib_rids _ HB _ _ Hr) Hr Hp) as (rid0 & t0 & E & Hle).
+  destruct (H2 _ _ E) as (r0 & k0 & dl0 & Hin0 & Hr0 & Hp0 & Et0).
+  assert (Hnow : forall rid1 r1 k1 dl1, st_res s rid1 = Some r1 -> r_phase r1 = PWait k1 dl1 ->
+            (st_now s <= poll_instant s r1 dl1 <= dl1)%Z /\ (dl1 <= r_born r1 + BUDGET)%Z).
+  { intros rid1 r1 k1 dl1 Hr1 Hp1. pose proof (ib_res _ HB _ _ Hr1) as [_ Ht]. rewrite Hp1 in Ht.
+    destruct Ht as (Hk & Hd & Hn). unfold poll_instant.
+    assert (Z.of_N k1 * RESEND_DELAY <= BUDGET)%Z.
+    { unfold BUDGET. apply Z.mul_le_mono_nonneg_r; [pose proof delay_pos; lia | lia]. }
+    destruct (ms_table _ _); lia. }
+  assert (Htime : time_ok s t0 = true).
+  { unfold time_ok. apply andb_true_iff. split.
+    - apply Z.leb_le. subst t0. apply (Hnow _ _ _ _ Hr0 Hp0).
+    - apply forallb_forall. intros rid1 Hin1. unfold res_time_ok.
+      destruct (st_res s rid1) as [r1|] eqn:Hr1; [|reflexivity].
+      destruct (r_phase r1) as [k1 dl1|? ? ?] eqn:Hp1; [|reflexivity].
+      destruct (H1 rid1 r1 k1 dl1 Hin1 Hr1 Hp1) as (rid2 & t2 & E2 & Hle2).
+      rewrite E in E2. inversion E2; subst rid2 t2.
+      pose proof (Hnow _ _ _ _ Hr1 Hp1) as [Hb _]. unfold poll_instant in *.
+      destruct (ms_table (st_machs s (r_mach r1)) (r_dest r1)).
+      + apply andb_true_iff. split; apply Z.leb_le; lia.
+      + rewrite andb_true_r. apply Z.leb_le. lia. }
+  rewrite Et0 in Htime. destruct (poll_enabled cfg s rid0 r0 k0 dl0 Hr0 Hp0 Htime) as [s' Hs'].
+  exists rid0, r0, t0, s'. rewrite Et0. split; [exact Hs'|]. split; [exact Hr0|].
+  pose proof (Hnow _ _ _ _ Hr0 Hp0) as [Ha Hb]. pose proof (Hnow _ _ _ _ Hr Hp) as [Hc _].
+  rewrite Et0 in Hle. lia.
+Qed.
+
+(* ------------------------------------------------------------------ theorems: same answer *)
+
+(* two successful resolutions of the same address agree, whoever and whenever *)
+Lemma same_answer_ok cfg s rid1 rid2 r1 r2 mac1 mac2 t1 t2 c1 c2 :
+  wf_cfg cfg -> reachable cfg s ->
+  st_res s rid1 = Some r1 -> st_res s rid2 = Some r2 -> r_dest r1 = r_dest r2 ->
+  r_phase r1 = PDone (SOk mac1) t1 c1 -> r_phase r2 = PDone (SOk mac2) t2 c2 -> mac1 = mac2.
+Proof.
+  intros Hwf Hre H1 H2 Hd P1 P2.
+  destruct (never_wrong _ _ _ _ _ _ _ Hwf Hre H1 P1) as [_ (o1 & Ho1 & -> & _ & Hc1 & _)].
+  destruct (never_wrong _ _ _ _ _ _ _ Hwf Hre H2 P2) as [_ (o2 & Ho2 & -> & _ & Hc2 & _)].
+  rewrite Hd in Hc1. rewrite (owner_unique cfg Hwf o1 o2 _ Ho1 Ho2 Hc1 Hc2). reflexivity.
+Qed.
+
+(* resolvers of one address on one machine agree as long as no cached failure of that address
+   was overwritten on that machine *)
+Lemma same_answer_unflipped cfg s rid1 rid2 r1 r2 st1 st2 t1 t2 c1 c2 :
+  wf_cfg cfg -> reachable cfg s ->
+  st_res s rid1 = Some r1 -> st_res s rid2 = Some r2 ->
+  r_mach r1 = r_mach r2 -> r_dest r1 = r_dest r2 ->
+  r_phase r1 = PDone st1 t1 c1 -> r_phase r2 = PDone st2 t2 c2 -> c1 <> CSend -> c2 <> CSend ->
+  ms_flipped (st_machs s (r_mach r1)) (r_dest r1) = false ->
+  st1 = st2.
+Proof.
+  intros Hwf Hre H1 H2 Hm Hd P1 P2 C1 C2 Hf.
+  pose proof (Inv_reachable _ _ Hwf Hre) as [_ _ HC _].
+  pose proof (HC _ _ _ _ _ H1 P1 C1 Hf) as E1.
+  rewrite Hm, Hd in Hf. pose proof (HC _ _ _ _ _ H2 P2 C2 Hf) as E2.
+  rewrite Hm, Hd in E1. congruence.
+Qed.
+
+(* trace-level form of the hypothesis: no ARP packet of an address reaches a machine that has a
+   cached failure for that address (in particular: no reply is still in flight when a budget
+   runs out) *)
+Definition late_answer (s : state) (l : label) : bool :=
+  match l with
+  | LDeliver p m =>
+      match ms_table (st_machs s m) (pk_sip p) with Some SFailed => true | _ => false end
+  | _ => false
+  end.
+
+Fixpoint no_late_answer (cfg : config) (s : state) (tr : list (Z * label)) : Prop :=
+  match tr with
+  | [] => True
+  | x :: tr' =>
+      late_answer s (snd x) = false /\
+      match step cfg s x with Ok s' => no_late_answer cfg s' tr' | _ => True end
+  end.
+
+Definition unflipped (s : state) : Prop := forall m ip, ms_flipped (st_machs s m) ip = false.
+
+Lemma unflipped_step cfg s x s' :
+  unflipped s -> late_answer s (snd x) = false -> step cfg s x = Ok s' -> unflipped s'.
+Proof.
+  intros Hu Hl Hstep. destruct x as [t l]. cbn [snd] in Hl.
+  apply step_shape_ok in Hstep. destruct Hstep as [_ Hsh]. intros m ip.
+  destruct l as [m0 ip0|m0 ip0 sn|m0 rid p slot|rid|p m0|p m0|p m0]; cbn [step_shape] in Hsh.
+  - destruct Hsh as (_ & _ & ->). unfold set_mach. cbn [st_machs].
+    machs_at m m0; [rewrite listen_flipped|]; apply Hu.
+  - destruct Hsh as (_ & _ & ->). unfold set_mach. cbn [st_machs]. machs_at m m0; apply Hu.
+  - destruct Hsh as (_ & _ & _ & Hsh). unfold start_shape in Hsh. cbv zeta in Hsh.
+    destruct Hsh as (ph & net' & -> & _). cbn [st_machs]. machs_at m m0; [rewrite listen_flipped|]; apply Hu.
+  - unfold poll_shape in Hsh. destruct Hsh as (r & k & dl & Hr & Hph & Hsh). cbv zeta in Hsh.
+    destruct Hsh as (ph & ms' & net' & -> & Hcases). cbn [st_machs].
+    destruct (Nat.eq_dec m (r_mach r)) as [->|Hm]; [rewrite updn_same|rewrite updn_other by exact Hm; apply Hu].
+    destruct Hcases as [(st' & _ & _ & -> & _)|[(_ & _ & _ & _ & _ & -> & _)|[(_ & _ & _ & _ & _ & -> & _)|(_ & _ & _ & _ & -> & _)]]];
+      apply Hu.
+  - destruct Hsh as (net' & _ & ->). cbn [st_machs].
+    destruct (Nat.eq_dec m m0) as [->|Hm]; [rewrite updn_same|rewrite updn_other by exact Hm; apply Hu].
+    rewrite demux_state. cbn [set_mac ms_flipped]. cbn [late_answer] in Hl.
+    destruct (ms_table (st_machs s m0) (pk_sip p)) as [[?|]|]; try apply Hu. discriminate.
+  - destruct Hsh as (net' & _ & ->). apply Hu.
+  - destruct Hsh as (net' & _ & ->). apply Hu.
+Qed.
+
+Lemma unflipped_run cfg tr : forall s s',
+  unflipped s -> no_late_answer cfg s tr -> run cfg s tr = Ok s' -> unflipped s'.
+Proof.
+  induction tr as [|x tr IH]; intros s s' Hu Hn Hrun; cbn [run no_late_answer] in *.
+  - inversion Hrun; subst. exact Hu.
+  - destruct Hn as [Hl Hn]. destruct (step cfg s x) as [s1| | |] eqn:Hs; cbn [bind] in Hrun; try discriminate.
+    apply (IH s1 s'); auto. eapply unflipped_step; eauto.
+Qed.
+
+Lemma same_answer cfg tr s rid1 rid2 r1 r2 st1 st2 t1 t2 c1 c2 :
+  wf_cfg cfg -> run cfg (init cfg) tr = Ok s -> no_late_answer cfg (init cfg) tr ->
+  st_res s rid1 = Some r1 -> st_res s rid2 = Some r2 ->
+  r_mach r1 = r_mach r2 -> r_dest r1 = r_dest r2 ->
+  r_phase r1 = PDone st1 t1 c1 -> r_phase r2 = PDone st2 t2 c2 -> c1 <> CSend -> c2 <> CSend ->
+  st1 = st2.
+Proof.
+  intros Hwf Hrun Hn H1 H2 Hm Hd P1 P2 C1 C2.
+  eapply (same_answer_unflipped cfg s rid1 rid2); eauto.
+  - exists tr. exact Hrun.
+  - eapply unflipped_run; eauto. intros m ip. reflexivity.
+Qed.
